@@ -39,6 +39,7 @@ HAZARDS = [
     'host_parameter', 'type_from_host_module', 'sibling_call', 'host_var_only_in_inner_spec', 'dim_by_member',
     'mixed_case_in_inner', 'inner_optional_host', 'inner_uses_module_variable', 'inner_host_loopvar_in_loop',
     'inner_fun_in_condition', 'inner_shadow_and_host', 'inner_kind_from_module_import', 'routine_without_contains',
+    'override_array', 'inner_array_two_subscripts', 'file_layout_extract',
 ]
 
 
@@ -310,8 +311,8 @@ class OutGen:
             params += f' name(reg{k})'
         if f['overrides'] and rng.random() < 0.6:
             ro = [v for v in ('n', 'm', 'k1', 'x1') if v in names]
-            rw = [v for v in ('a', 'b', 'c2', 'ia', 'd0', 's1', 's2', 'j1', 'lg', 'w', 'w2', 'lf', 'kw', 't', 'tl')
-                  if v in names and v != outv]
+            # (scalars only: an override naming an array duplicates the argument, known finding / hazard override_array)
+            rw = [v for v in ('s1', 's2', 'j1', 'lg', 't', 'tl') if v in names and v != outv]
             ins = rng.sample(ro, rng.randint(0, len(ro))) if ro else []
             ios = rng.sample(rw, rng.randint(0, min(3, len(rw)))) if rw else []
             if ins:
@@ -349,7 +350,7 @@ class OutGen:
             elif kd == 'iarr':
                 procs += ['subroutine iarr(bb)', '  real(jprb), intent(inout) :: bb(:)', '  integer :: jj',
                           '  do jj = 1, size(bb)', f"    bb(jj) = bb(jj)*0.5_jprb + w2(jj, m) + {rng.choice(['s1', 'x1', 'rp'])}",
-                          '  end do', '  w2(1, 1) = w2(1, 1) + 1.0_jprb', '  kw(n) = kw(n) + 1', 'end subroutine iarr']
+                          '  end do', '  lf(1) = lf(1) + 1.0_jprb', '  kw(n) = kw(n) + 1', 'end subroutine iarr']
                 calls.append(f"call iarr({rng.choice(['a', 'b', 'w'])})")
             else:
                 if self.flags['derived']:
@@ -377,6 +378,14 @@ class OutGen:
             s = [f'{ind}tdv%dk = 7 + k1'] + reg(['tdv%dp = x1']) + [f'{ind}oi({T1}) = tdv%dk', f'{ind}orr({R1}) = tdv%dp']
         elif hz == 'pragma_list_with_spaces':
             s = reg(['s1 = s1 + x1', 's2 = s2*0.5_jprb'], ' in(x1) inout(s1, s2)')
+        elif hz == 'override_array':
+            s = reg(['w(1) = w(1) + x1', 'lf(2) = 2.0_jprb', 'if (n < 0) j1 = 0'], ' inout(w) out(lf)')
+        elif hz == 'inner_array_two_subscripts':
+            self.extra_internal += ['subroutine ihz(q)', '  real(jprb), intent(inout) :: q', '  q = q + lf(1) + lf(2)', 'end subroutine ihz']
+            s = [f'{ind}call ihz(s1)']
+        elif hz == 'file_layout_extract':
+            self.extra_internal += ['subroutine ihz(q)', '  integer, intent(inout) :: q', '  q = q + k1', 'end subroutine ihz']
+            s = [f'{ind}call ihz(j1)']
         elif hz == 'override_case':
             s = reg(['s1 = s1 + x1'], ' in(X1) inout(S1)')
         elif hz == 'call_internal_in_region':
@@ -538,6 +547,8 @@ class OutGen:
 
         tmod = ['module tmod', '  implicit none', '  integer, parameter :: jprb = selected_real_kind(13, 300)',
                 '  type tt', '    real(jprb) :: tp', '    integer :: tk', '    real(jprb) :: tq(3)', '  end type tt']
+        if f['layout'] == 'file':
+            tmod += ['  integer, parameter :: np = 4', '  real(8), parameter :: rp = 1.5_8']
         tmod += self.extra_tmod
         tmod += ['contains',
               '  subroutine hsub(x, k, y)', '    real(jprb), intent(in) :: x', '    integer, intent(in) :: k',
@@ -550,6 +561,10 @@ class OutGen:
         tmod += ['end module tmod']
 
         kuse = ['jprb', 'hsub', 'hfun', 'harr'] + (['tt'] if f['derived'] else []) + self.extra_kern_use
+        filelayout = f['layout'] == 'file'
+        if filelayout:
+            self.features.add('layout_free_subroutine')
+            kuse += ['np', 'rp']
         L = ['module omod']
         if self.hz == 'inner_kind_from_module_import':
             L.append('  use tmod, only: jprb')
@@ -581,13 +596,19 @@ class OutGen:
             L.append('  contains')
             L += ['    ' + x for x in procs + self.extra_internal]
         L += ['  end subroutine kern', 'end module omod']
+        if filelayout:
+            # kern as a free-standing subroutine in its own file (ExtractTransformation.transform_file)
+            k0 = next(k for k, ln in enumerate(L) if ln.startswith('  subroutine kern('))
+            K = [ln[2:] for ln in L[k0:-1]]
+            K.insert(2, '  implicit none')
+            L = K
 
         stdins = []
         for k in range(4):
             n = rng.randint(2, 6)
             m = rng.randint(2, 5)
             stdins.append(f'{n} {m} {rng.randint(-4, 9)} {rng.uniform(-2.0, 2.0):.4f}\n')
-        return Case(files=[('tmod.F90', '\n'.join(tmod) + '\n'), ('omod.F90', '\n'.join(L) + '\n')],
+        return Case(files=[('tmod.F90', '\n'.join(tmod) + '\n'), ('kern.F90' if filelayout else 'omod.F90', '\n'.join(L) + '\n')],
                     driver=('drv.F90', self._driver()), stdins=stdins, features=self.features, meta={'hazard': self.hz})
 
     def _driver(self):
@@ -596,10 +617,10 @@ class OutGen:
         tdecl = '  type(tt) :: t\n' if f['derived'] else ''
         tinit = '    t%tp = 0.75_8*real(rep, 8)\n    t%tk = 2 + rep\n    t%tq = (/ 0.5_8, 1.5_8, 2.5_8 /)\n' if f['derived'] else ''
         tprint = "    print '(a,*(1x,es23.15))', 't', t%tp, t%tq\n    print '(a,*(1x,i0))', 'tk', t%tk\n" if f['derived'] else ''
+        usek = '' if f['layout'] == 'file' else '  use omod, only: kern\n'
         return f'''program main
   use tmod, only: tt
-  use omod, only: kern
-  implicit none
+{usek}  implicit none
   integer :: n, m, k1, rep, i, j
   real(8) :: x1
   real(8), allocatable :: a(:), b(:), c2(:, :), d0(:)
